@@ -26,7 +26,8 @@ ASSUMPTIONS = ['CPython 3.12 tokenizer and eval as the reference semantics',
                'displays are near-misses) are in neither class unless listed']
 WITNESSES = ['concat_with_empty_piece', 'negative_number', 'one_tuple', 'trailing_comma', 'comment_in_brackets',
              'newline_in_brackets', 'nested_depth2', 'bytes_value', 'nearmiss_rejected', 'triple_quoted',
-             'minus_before_ref_rejected', 'trailing_junk_rejected', 'mixed_str_bytes_rejected']
+             'minus_before_ref_rejected', 'trailing_junk_rejected', 'mixed_str_bytes_rejected',
+             'odd_line_separator_char']
 
 SENT = object()
 warnings.simplefilter('ignore')
@@ -359,11 +360,27 @@ def tags_for_atom(a):
   return t
 
 
+# characters that str.splitlines() treats as line boundaries but the Python tokenizer does not
+ODD_SEPARATORS = ['\x0b', '\x0c', '\x1c', '\x1d', '\x1e', '\x85', '\u2028', '\u2029']
+
+
+def odd_separator_texts():
+  for ch in ODD_SEPARATORS:
+    yield "'a%sb'" % ch
+    yield '"""x%sy\nz"""' % ch
+    yield "['p', 'q%sr', 1]" % ch
+    yield "[1,  # comment with %s inside\n 2]" % ch
+    yield "{'k%s': ('v',)}" % ch
+    yield "'a' '%s' 'b'" % ch
+
+
 def gen_cases(tier):
   """Yields (kind, text, tags) for all in-grammar and near-miss texts, simplest first."""
   A = atoms(tier)
   for a in A:
     yield ('good', a, tags_for_atom(a))
+  for t in odd_separator_texts():
+    yield ('good', t, ['odd_line_separator_char'])
   # every atom as the single / second element of each container kind, in every layout
   for lname, L in LAYOUTS:
     tags = []
